@@ -105,7 +105,7 @@ def text(case):
     lines = []
     for e in tree(case):
         r = "[" + ", ".join(("'%s'" % v) if isinstance(v, str) else repr(v) for v in e[0]) + "]"
-        a = "{" + ", ".join("%s: %r" % (k, v) for k, v in e[1].items()) + "}"
+        a = "{" + ", ".join("'%s': %r" % (k, v) for k, v in e[1].items()) + "}"
         lines.append("- [%s, %s%s]" % (r, a, (", %d" % e[2]) if len(e) > 2 else ""))
     return "\n".join(lines) + "\n"
 
